@@ -313,6 +313,7 @@ func checkLoopProgress(p *Program, r *Result, fns []*ssa.Function) {
 				}
 			}
 			// loop header phis used (through conversions / + const) in the condition
+			made := false
 			for _, instr := range b.Instrs {
 				phi, ok := instr.(*ssa.Phi)
 				if !ok {
@@ -341,6 +342,7 @@ func checkLoopProgress(p *Program, r *Result, fns []*ssa.Function) {
 				if !decodes {
 					continue
 				}
+				made = true
 				construct := "progress of " + valueLabel(phi) + " in the decode loop"
 				stuck := ""
 				for i, e := range phi.Edges {
@@ -358,6 +360,11 @@ func checkLoopProgress(p *Program, r *Result, fns []*ssa.Function) {
 				} else {
 					r.held("C10.f", fname, construct, p.pos(iff.Pos()), "every back edge carries a position advanced by a decode helper or a positive step")
 				}
+			}
+			// a decode loop whose position lives in a field of a cursor object (re-loaded on every iteration): the
+			// advance happens inside the cursor's methods; the "never changes" test above has looked at it
+			if !made && isHeader && loopDecodes(p, b) {
+				r.abstain("C10.f", fname, "decode loop over a cursor field", p.pos(iff.Pos()), "the position is a field updated by the cursor's methods, not a loop-carried value")
 			}
 		}
 	}
